@@ -265,6 +265,33 @@ main(int argc, char **argv)
                         memset(c, 0, sizeof(*c));
                         c->phase = ph;
                         c->others_ret = strcmp(cbm, "cb0") == 0 ? 0 : 1;
+                        /* optional prefix of a set: ^ = no application traffic before this initialisation (the manager
+                         * is re-initialised exactly as the previous initialisation left it, e.g. with the self-test
+                         * error still recorded); ! = a rejected job right before it (error code pending) */
+                        int keep = 0, err_first = 0;
+
+                        while (*s == '^' || *s == '!') {
+                                if (*s == '^')
+                                        keep = 1;
+                                else
+                                        err_first = 1;
+                                s++;
+                        }
+                        if (ph > 0 && !keep && m->used_arch != IMB_ARCH_NONE &&
+                            (imb_get_errno(m) == 0 || (m->features & IMB_FEATURE_SELF_TEST)))
+                                traffic(m);
+                        if (ph > 0 && err_first && m->used_arch != IMB_ARCH_NONE) {
+                                IMB_JOB *j = IMB_GET_NEXT_JOB(m);
+
+                                memset(j, 0, sizeof(*j));
+                                (void) IMB_SUBMIT_JOB(m);
+                                while (IMB_FLUSH_JOB(m) != NULL)
+                                        ;
+                                /* leave an error recorded in the manager */
+                                j = IMB_GET_NEXT_JOB(m);
+                                memset(j, 0, sizeof(*j));
+                                (void) IMB_SUBMIT_JOB(m);
+                        }
                         if (parse_set(s, c) != 0) {
                                 printf("BADSET %d\n", ph);
                                 break;
@@ -286,10 +313,6 @@ main(int argc, char **argv)
                                m->imb_errno, (unsigned long long) m->features, (unsigned) m->used_arch,
                                (unsigned) m->used_arch_type, c->bad);
                         fflush(stdout);
-                        /* the next phase re-initialises a manager that has been used */
-                        if (imb_get_errno(m) == 0 || (m->features & IMB_FEATURE_SELF_TEST))
-                                if (m->used_arch != IMB_ARCH_NONE)
-                                        traffic(m);
                 }
                 free(c);
                 free_mb_mgr(m);
